@@ -14,20 +14,20 @@ def build(ctx):
     return ctx.build("logindex")
 
 
-def record(ctx, scen, runs, blocks, queries, label, seed):
-    """Run the driver. Returns (config_event, [run, ...], stats); run = list of events starting with Reset."""
+def record(ctx, scen, runs, blocks, queries, label, seed, extra=()):
+    """Run the driver. Returns (config_event, [run, ...], stats); run = list of events starting with Reset.
+    Every call into the code under test (import, restart + syncLogDB, log-db reads and writes, API handlers) is guarded
+    inside the driver: its errors and panics are Error events of the trace (rejected by the trace specification, hence a
+    VIOLATION with the position). A driver that dies nevertheless died in its own code, in the set-up (minting on the
+    omniscient stack) or of resource exhaustion: infrastructure trouble, never a verdict."""
     binp = build(ctx)
     out = ctx.tmp("rec-" + label)
     rc, o = ctx.run([binp, "-out", out, "-runs", str(runs), "-seed", str(seed), "-scen", scen, "-blocks", str(blocks),
-                     "-queries", str(queries)], timeout=3000)
+                     "-queries", str(queries)] + list(extra), timeout=3000)
     if rc == 3:
         raise Infra("logindex harness error: " + o[-1500:])
     if rc != 0:
-        if rc is not None and ("panic:" in o or "goroutine " in o):
-            rp = ctx.save_replay("panic-%s-%d.txt" % (label, seed), o[-20000:])
-            ctx.report("panic:" + label, "real code panicked in the logindex driver (%s): %s" % (label, o.strip().splitlines()[0:3]), rp)
-            return None, [], []
-        raise Infra("logindex failed rc=%s: %s" % (rc, o[-2000:]))
+        raise Infra("logindex driver died (rc=%s; not inside a guarded call into thor): %s" % (rc, o[-2500:]))
     events = read_ndjson(os.path.join(out, "trace.ndjson"))
     stats = json.load(open(os.path.join(out, "runs.json")))
     return events[0], split_streams(events[1:]), stats
@@ -84,15 +84,32 @@ def signature(stream, off, invariant):
     if invariant:
         return "invariant:" + invariant
     kind = ev["e"]
+    if kind == "Error":
+        # a call into thor code failed: the class of the call and the head of the message (block numbers and ids vary)
+        return "%s-error:%s" % (ev.get("what"), re.sub(r"[0-9a-fx]{8,}|\d+", "#", str(ev.get("err", "")))[:80])
     if kind == "Import":
         return "tables-differ:import-%s" % ("best" if ev.get("trunk") else "side")
-    if kind in ("Crash", "Restart"):
+    if kind in ("Crash", "Restart", "SyncCancel", "WriteErr", "Reset"):
         return "tables-differ:" + kind.lower()
+    if kind == "Pack":
+        return "sequence-packing:" + ("refused" if ev.get("err") else "accepted")
     if kind == "Q":
         return "query-differs:%s" % ev.get("k")
     if kind == "Api":
         return "api-differs:%s" % ev.get("k")
     return "rejected:" + kind
+
+
+def locate(streams, pending, hwm):
+    """hwm = 0-based line index (line 0 = Config) of the first unmatched event, or of the event whose consumption led to
+    a state violating an invariant. Returns (stream index, offset in the stream) or (None, None)."""
+    pos = 1
+    for k in pending:
+        n = len(streams[k])
+        if pos <= hwm < pos + n:
+            return k, hwm - pos
+        pos += n
+    return None, None
 
 
 def validate(ctx, cfg, streams, label, how, timeout=3000):
@@ -115,22 +132,23 @@ def validate(ctx, cfg, streams, label, how, timeout=3000):
         if accepted:
             accepted_n += len(pending)
             break
-        # hwm = 0-based index of the first unmatched line; line 0 is the Config
-        pos, bad = 1, None
-        for k in pending:
-            n = len(streams[k])
-            if hwm < pos + n:
-                bad, off = k, hwm - pos
-                break
-            pos += n
-        if bad is None or hwm < 1:
-            raise Infra("trace rejected but the offending stream was not found (hwm=%d len=%d)\n%s" % (hwm, ln, r.out[-2000:]))
+        # an event no action of the specification allows, or (r.invariant) a state of the recorded execution that violates
+        # an invariant of LogIndex.tla: both are observations on the real code with a position
+        bad, off = locate(streams, pending, hwm)
+        if bad is None:
+            raise Infra("trace rejected but the offending stream was not found (hwm=%d len=%d invariant=%s)\n%s"
+                        % (hwm, ln, r.invariant, r.out[-2000:]))
         stream = streams[bad]
         ev, hdr = stream[off], stream[0]
-        what = "invariant %s violated" % r.invariant if r.invariant else "not what LogIndex.tla computes from the receipts of the node's chain"
+        if r.invariant:
+            what = "the state after this event violates invariant %s of LogIndex.tla" % r.invariant
+        elif ev["e"] == "Error":
+            what = "thor code failed: %s: %s" % (ev.get("what"), ev.get("err"))
+        else:
+            what = "not what LogIndex.tla computes from the receipts of the node's chain"
         sig = signature(stream, off, r.invariant)
         # the last state-changing event before the offending one tells where the log db went wrong
-        last_change = next((brief(e) for e in reversed(stream[:off + 1]) if e["e"] in ("Import", "Crash", "Restart", "Reset")), None)
+        last_change = next((brief(e) for e in reversed(stream[:off + 1]) if e["e"] in ("Import", "Crash", "Restart", "Reset", "SyncCancel", "WriteErr")), None)
         tr = ctx.save_replay("%s-%s-seed%s.ndjson" % (label, hdr.get("name"), hdr.get("seed")),
                              "\n".join(json.dumps(e, sort_keys=True) for e in [cfg] + stream) + "\n")
         ctx.save_replay("%s-%s-seed%s.json" % (label, hdr.get("name"), hdr.get("seed")),
@@ -150,58 +168,109 @@ def validate(ctx, cfg, streams, label, how, timeout=3000):
     return accepted_n
 
 
-def binding_demo(ctx, seed):
-    """The trace spec must have teeth: recorded traces with one row corrupted, one import deleted, one query answer
-    shortened, one API status changed must ALL be rejected - otherwise the check itself is broken (Infra)."""
-    cfg, streams, _ = record(ctx, "reorg,crash", 2, 14, 12, "demo", seed)
+def fabricate_no_truncate(cfg, stream):
+    """Rewrite a recorded stream into what a node WITHOUT the truncate in writeLogs would have shown: at the first
+    best-import that drops rows, the old table's rows stay and the new rows only fill free keys (INSERT OR IGNORE).
+    The stream is cut there. Returns (events, index of that import) or (None, None)."""
+    rows = cfg["rows"]
+    key = lambda x: (rows[x]["n"], rows[x]["ti"], rows[x]["li"])
+    prev = None
+    for j, e in enumerate(stream):
+        if "E" not in e:
+            continue
+        if prev is not None and e["e"] == "Import" and e["trunk"] and (set(prev["E"]) - set(e["E"]) or set(prev["T"]) - set(e["T"])):
+            v = dict(e)
+            for k in ("E", "T"):
+                occupied = {key(x) for x in prev[k]}
+                v[k] = sorted(prev[k] + [x for x in e[k] if key(x) not in occupied], key=key)
+            v.pop("nilE", None), v.pop("nilT", None)
+            return [dict(x) for x in stream[:j]] + [v], j
+        if e["e"] in ("Import", "Reset", "Restart"):
+            prev = e
+        elif e["e"] != "Ignore":
+            prev = None
+    return None, None
+
+
+def binding_demo(ctx, seed, full=True):
+    """The trace spec must have teeth. Recorded traces with one row corrupted, one import deleted, one query answer
+    shortened, an API answer reversed, a failed call into thor (Error event) must ALL be rejected at the right place; and a
+    recorded execution on which the design itself is wrong (spec and observations agree, the tables are NOT the canonical
+    chain's: fabricated from a real stream, validated against the spec variant without the truncate) must come out as a
+    violated invariant at the right place - otherwise the check itself is broken (Infra)."""
+    cfg, streams, _ = record(ctx, "reorg,crash", 2, 12, 8, "demo", seed)
     if cfg is None:
         raise Infra("binding demo: driver failed")
     base = streams[0]
     out = ctx.tmp("demo-variants")
-    ok, hwm, ln, r = ctx.validate_trace(SUB, TRACE_SPEC, _write(out, "unmodified", [cfg] + base), timeout=600)
-    if not ok:
-        return False            # the unmodified trace is rejected: let the main validation report it
     imports = [i for i, e in enumerate(base) if e["e"] == "Import" and e["trunk"] and len(e["E"]) > 9]
     queries = [i for i, e in enumerate(base) if e["e"] == "Q" and len(e["res"]) > 1]
     apis = [i for i, e in enumerate(base) if e["e"] == "Api" and e["status"] == 200 and e["cnt"] > 0]
     if len(imports) < 3 or not queries or not apis:
         raise Infra("binding demo: recorded stream too poor (%d imports, %d queries, %d api calls)" % (len(imports), len(queries), len(apis)))
-    variants = {}
+    ok, hwm, ln, r = ctx.validate_trace(SUB, TRACE_SPEC, _write(out, "unmodified", [cfg] + base), timeout=600)
+    if not ok:
+        # the code under test already deviates on the demo stream: nothing can be demonstrated on it; the main
+        # validation below reports the deviation
+        ctx.cov["binding_demo"] = "skipped: the unmodified demo trace is already rejected (reported by the main validation)"
+        return False
+    variants = {}          # name -> (events, index in the stream where the rejection must be located, or None)
     # (a) one column of one row that the log db returned is different (clause index + 1)
     i = imports[len(imports) // 2]
     rid = base[i]["E"][-1]
+    first_use = next(k for k, e in enumerate(base) if rid in e.get("E", []))
     c2 = json.loads(json.dumps(cfg))
     c2["rows"][rid]["c"] += 1
-    variants["corrupted-row"] = [c2] + base
-    # (b) a stale row survives: the table after a best-import still holds a row of the table before it
-    j = imports[-1]
-    prev = next(e for e in reversed(base[:j]) if e["e"] in ("Import", "Reset", "Restart"))
-    stale = [x for x in prev["E"] if x not in base[j]["E"]] or [base[j]["E"][0]]
-    v = [dict(e) for e in base]
-    v[j]["E"] = sorted(base[j]["E"] + stale[:1], key=lambda x: (cfg["rows"][x]["n"], cfg["rows"][x]["ti"], cfg["rows"][x]["li"]))
-    variants["extra-row"] = [cfg] + v
-    # (c) one import event deleted
+    variants["corrupted-row"] = ([c2] + base, first_use)
+    # (b) one import event deleted: the next observation of the tables cannot be explained
     k = imports[len(imports) // 3]
-    variants["deleted-import"] = [cfg] + base[:k] + base[k + 1:]
-    # (d) a query answer lost its first row
+    variants["deleted-import"] = ([cfg] + base[:k] + base[k + 1:], None)
+    # (c) a query answer lost its first row
     qi = queries[len(queries) // 2]
     v = [dict(e) for e in base]
     v[qi]["res"] = v[qi]["res"][1:]
-    variants["shortened-query-result"] = [cfg] + v
-    # (e) an API answer in the wrong order
-    ai = next((a for a in apis if base[a]["hasOpt"] and len(base[a]["res"]) > 1), None)
-    v = [dict(e) for e in base]
-    if ai is not None:
-        v[ai]["res"] = list(reversed(v[ai]["res"]))
-        variants["reversed-api-result"] = [cfg] + v
-    else:
-        v[apis[0]]["status"] = 403
-        variants["wrong-api-status"] = [cfg] + v
-    for name, evs in variants.items():
+    variants["shortened-query-result"] = ([cfg] + v, qi)
+    # (d) a call into thor failed
+    ei = imports[-1]
+    v = base[:ei] + [{"e": "Error", "what": "import", "err": "error: write logs: disk I/O error", "b": base[ei]["b"]}]
+    variants["error-event"] = ([cfg] + v, ei)
+    if full:
+        # (e) a stale row survives: the table after a best-import still holds a row of the table before it
+        j = imports[-1]
+        prev = next(e for e in reversed(base[:j]) if e["e"] in ("Import", "Reset", "Restart"))
+        stale = [x for x in prev["E"] if x not in base[j]["E"]] or [base[j]["E"][0]]
+        v = [dict(e) for e in base]
+        v[j]["E"] = sorted(base[j]["E"] + stale[:1], key=lambda x: (cfg["rows"][x]["n"], cfg["rows"][x]["ti"], cfg["rows"][x]["li"]))
+        variants["extra-row"] = ([cfg] + v, j)
+        # (f) an API answer in the wrong order
+        ai = next((a for a in apis if base[a]["hasOpt"] and len(base[a]["res"]) > 1), None)
+        v = [dict(e) for e in base]
+        if ai is not None:
+            v[ai]["res"] = list(reversed(v[ai]["res"]))
+            variants["reversed-api-result"] = ([cfg] + v, ai)
+        else:
+            v[apis[0]]["status"] = 403
+            variants["wrong-api-status"] = ([cfg] + v, apis[0])
+    for name, (evs, where) in variants.items():
         ok, hwm, ln, r = ctx.validate_trace(SUB, TRACE_SPEC, _write(out, name, evs), timeout=600)
         if ok:
             raise Infra("binding demonstration failed: the %s trace was accepted by Trace_LogIndex" % name)
-    ctx.cov["binding_demo"] = "rejected as they must be: " + ", ".join(sorted(variants))
+        if where is not None and hwm - 1 != where:
+            raise Infra("binding demonstration failed: the %s trace was rejected at event %d, expected %d" % (name, hwm - 1, where))
+    # (g) an invariant violated ON A RECORDED EXECUTION must be found, located and classified as such
+    fab, at = next(((f, a) for f, a in (fabricate_no_truncate(cfg, s) for s in streams) if f), (None, None))
+    if fab is None:
+        raise Infra("binding demo: no reorganisation that drops rows in the demo streams")
+    text = open(os.path.join(VERIF, "specs", SUB, TRACE_SPEC + ".cfg")).read().replace('Variant = "ok"', 'Variant = "no-truncate"')
+    ok, hwm, ln, r = ctx.validate_trace(SUB, TRACE_SPEC, _write(out, "no-truncate-execution", [cfg] + fab), cfg="nt.cfg",
+                                        files={"nt.cfg": text}, timeout=600)
+    k, off = locate([fab], [0], hwm)
+    if ok or r.invariant != "RowsEqualCanonical" or off != at or signature(fab, off, r.invariant) != "invariant:RowsEqualCanonical":
+        raise Infra("binding demonstration failed: an execution whose tables are not the canonical chain's (no truncate, spec "
+                    "variant and observations agreeing) must violate RowsEqualCanonical at event %d; got accepted=%s invariant=%s "
+                    "event=%s" % (at, ok, r.invariant, off))
+    ctx.cov["binding_demo"] = ("rejected at the expected event: " + ", ".join(sorted(variants)) +
+                               "; invariant RowsEqualCanonical violated and located on a fabricated no-truncate execution")
     return True
 
 
